@@ -11,6 +11,17 @@ sys.path.insert(0, os.path.join(os.path.dirname(os.path.abspath(__file__)), '..'
 from prover import Proof  # noqa: E402
 
 
+def nliarf_proofs():
+    common = dict(impl='contracts/C07/nliarf.impl.cpp', spec='contracts/C07/nliarf.spec.c', plain=True, no_contract=True, canaries=2, rules={}, nondet_static='.*(optv_|g_nav_fuel).*',
+                  drop_flags=['--conversion-check'], assumed=['chunk navigation (fuel)', 'newline_add_between / newline_del_between: recorded, not verified here'])
+    return [Proof('newline_iarf_pair', harness='h_newline_iarf_pair', unwind=4, expect=['postcondition: newline_iarf_pair'], functions=['newlines/iarf.cpp:newline_iarf_pair'],
+                  mutants=[('ignored_guard_dropped', r'\n      \|\| after->Is\(CT_IGNORED\)\)', ')', 'postcondition|disabled region'),
+                           ('remove_adds', r'      newline_del_between\(before, after\);', '      newline_add_between(before, after);', 'postcondition')], **common),
+            Proof('newlines_remove_newlines', harness='h_newlines_remove_newlines', unwind=10, slice_formula=True, expect=['postcondition: newlines_remove_newlines'],
+                  functions=['newlines/remove.cpp:newlines_remove_newlines', 'newlines/iarf.cpp:newline_iarf', 'newlines/iarf.cpp:newline_iarf_pair'],
+                  mutants=[('deletes_directly', r'newline_iarf\(pc, IARF_REMOVE\);', 'newline_del_between(pc, pc->GetNextNnl());', 'disabled region|assertion')], **common)]
+
+
 def marker_proof():
     return Proof('parse_comment_markers', impl='contracts/C07/marker.impl.cpp', spec='contracts/C07/marker.spec.c', harness='h_parse_comment_markers', plain=True, no_contract=True, canaries=3,
                  rules={'parse_comment_markers': [('D8', [(r'const auto &ontext(\s*)= ', r'const verif_string &ontext\1= ', 'auto of the option text (used for logging only)', True),
@@ -23,10 +34,10 @@ def marker_proof():
                           ('used_flag_forgotten', r'cpd\.unc_off_used = true;', '', 'postcondition')])
 
 
-PROOFS = output_proofs.select(['add_text_ignored']) + tokenizer_proofs.select(['tok_layout', 'parse_off_newlines', 'parse_newline', 'parse_next_head', 'tokenize_strip']) + [outtext_proofs.iteration_proof(), end_proof.end_proof(), marker_proof()]
+PROOFS = output_proofs.select(['add_text_ignored']) + tokenizer_proofs.select(['tok_layout', 'parse_off_newlines', 'parse_newline', 'parse_next_head', 'tokenize_strip']) + [outtext_proofs.iteration_proof(), end_proof.end_proof(), marker_proof()] + nliarf_proofs()
 EXPLANATION = ('Kernel of C07: add_text(text, is_ignored=true) hands text[0..n) to write_char unchanged and in order and touches neither cpd.column, cpd.spaces nor '
                'cpd.last_char (frame); the blank-line path of parse_ignored (parse_off_newlines) consumes only blanks and terminators and reports their exact count.')
-K = ['K8 tokenize() strip loop: the text of a CT_IGNORED chunk (disabled region) is never stripped', 'K7 parse_comment (tail): a region begins exactly at a comment whose last marker is the disable marker, ends exactly at a comment holding the enable marker, and opening one is recorded in unc_off_used', 'K2 add_text(is_ignored): raw emission, frame excludes column logic', 'K5 parse_next (head): while cpd.unc_off is set parse_ignored is the first tokenizer tried, and when it takes the text no other tokenizer is consulted; outside a region it is not consulted',
+K = ['K9 newline_iarf / newline_iarf_pair / newlines_remove_newlines: no newline in front of disabled-region text is deleted through the IARF switch (guard after->Is(CT_IGNORED)), and nl_remove_extra_newlines=2 deletes only through that switch; the pair function does what the IARF value says', 'K8 tokenize() strip loop: the text of a CT_IGNORED chunk (disabled region) is never stripped', 'K7 parse_comment (tail): a region begins exactly at a comment whose last marker is the disable marker, ends exactly at a comment holding the enable marker, and opening one is recorded in unc_off_used', 'K2 add_text(is_ignored): raw emission, frame excludes column logic', 'K5 parse_next (head): while cpd.unc_off is set parse_ignored is the first tokenizer tried, and when it takes the text no other tokenizer is consulted; outside a region it is not consulted',
      'K6 uncrustify_end: cpd.unc_off is cleared after every file (a region left open does not disable processing of the next file)',
      'K1b parse_off_newlines: only blanks/terminators consumed, nl_count exact',
      'K3 output_text (one iteration of the chunk loop): a CT_IGNORED / CT_JUNK chunk is written by exactly one add_text(str, is_ignored=true) and nothing else (no output_to_column, no add_char, column/pending blanks/line state untouched)']
